@@ -96,12 +96,13 @@ See also: fixed, guarded
 
     def __str__(self):
         "represent Rational as fixed-decimal string"
+        sign = '-' if self.numerator < 0 else ''
         if self.numerator == 0 or self.denominator == 1:
-            v = self.numerator * Rational._dps
+            v = abs(self.numerator) * Rational._dps
         else:
-            v = self + Rational._dpr  # add 1/2 of lsd for rounding
+            v = abs(self) + Rational._dpr  # add 1/2 of lsd for rounding (of the magnitude)
             v = v.numerator * Rational._dps // v.denominator
-        return Rational._dfmt % (v // Rational._dps, v % Rational._dps)
+        return sign + Rational._dfmt % (v // Rational._dps, v % Rational._dps)
 
     def __repr__(self): # pragma: no cover
         """repr(self)"""
